@@ -295,6 +295,10 @@ pub struct MA {
     pub fd_at_start: (bool, bool, u8),
     /// fd: an event collected under the previous registration is still in the current batch
     pub stale_in_batch: bool,
+    /// this (disabled) fd source's descriptor has been taken over by another inserted source: the
+    /// model no longer follows the fd through this actor; it can only be removed, or enabled in
+    /// vain while the other one is there
+    pub shadowed: bool,
     // causal features
     pub ever_upd_while_disabled: bool,
     pub upd_while_disabled: bool,
@@ -474,6 +478,7 @@ impl Ctx {
             pe_at_start: 0,
             fd_at_start: (false, false, 0),
             stale_in_batch: false,
+            shadowed: false,
             ever_upd_while_disabled: false,
             upd_while_disabled: false,
             pe_at_removal: None,
@@ -782,6 +787,20 @@ impl Ctx {
         } else {
             (c.top_remove, c.top_disable, c.top_disable, c.top_update, true, c.top_cause2)
         };
+        if a.shadowed {
+            let my_fd = self.rt[i].efd.as_ref().map(|e| e.as_raw_fd());
+            let dup = self.m.iter().enumerate().any(|(k, b)| b.alive && b.enabled && k != i && self.rt[k].efd.as_ref().map(|e| e.as_raw_fd()) == my_fd);
+            if rm {
+                v.push(Op::Remove(i));
+            }
+            if !a.enabled && en && dup && cur != Some(i) {
+                v.push(Op::Enable(i));
+            }
+            if !in_cb && c.top_release && self.rt[i].fdd.is_some() {
+                v.push(Op::Unwrap(i));
+            }
+            return;
+        }
         if a.spec == KindSpec::Async {
             if !in_cb {
                 v.push(Op::Remove(i));
@@ -1749,6 +1768,9 @@ impl Ctx {
             Op::InsertSameFd(j) => {
                 let e = self.rt[j].efd.clone().unwrap();
                 self.pending_efd = Some(e);
+                if self.m[j].alive {
+                    self.m[j].shadowed = true;
+                }
                 let fdc = self.m[j].fdc;
                 self.insert(KindSpec::Fd { r: true, w: false, mode: 0 });
                 if let Some(a) = self.m.last_mut() {
